@@ -13,6 +13,7 @@ func init() {
 	vrtHarnesses["VerifC11Registry"] = VerifC11Registry
 	vrtHarnesses["VerifC11Connections"] = VerifC11Connections
 	vrtHarnesses["VerifC11Schedules"] = VerifC11Schedules
+	vrtHarnesses["VerifC11ConcurrentJoins"] = VerifC11ConcurrentJoins
 }
 
 func c11Msg(key string) *Message {
@@ -313,4 +314,83 @@ func VerifC11Schedules() {
 	} else {
 		vrt_Assert(len(c06Frames(vrt_ConnWritten(b.conn))) == wb+1, "command not routed to the connection that now owns the key")
 	}
+}
+
+// VerifC11ConcurrentJoins: two connections present the same key for the first time at the same
+// moment (their first messages are pushed back to back), under the default schedule and every
+// schedule within the deviation bound. Final state: exactly one of them joined, the other was
+// refused and closed having left with the empty key; a command reaches the winner's socket and no
+// other; when the winner's peer closes, the key is free.
+func VerifC11ConcurrentJoins() {
+	vrt_ClockFrozen()
+	vrt_Sched(0)
+	g := &GoJT808{}
+	sm := newSessionManager(func(m *Message) (string, bool) { return m.JTMessage.Header.TerminalPhoneNo, true })
+	vrt_Go(sm.run)
+	log := &c11Log{}
+	mk := func(id int) *connection {
+		ev := &c11Rec{id: id, log: log}
+		conn := vrt_NewTCPConn()
+		vrt_ConnLive(conn)
+		c := newConnection(conn, g.createDefaultHandle(), ev, true, sm.join, sm.leave)
+		vrt_Go(c.reader)
+		vrt_Go(c.write)
+		return c
+	}
+	phone := []byte{0x01, 0x23, 0x45, 0x67, 0x89, 0x05}
+	key := jt808BcdString(phone)
+	cs := []*connection{mk(0), mk(1)}
+	vrt_Quiesce()
+	k := 1
+	if vrt_Tier() > 0 {
+		k = 2
+	}
+	firstB := vrt_Choose("secondConnectionFirst", 2)
+	vrt_Sched(k)
+	vrt_ConnPushRead(cs[firstB].conn, (&vFrame{id: 0x0002, phone: phone, serial: 1}).bytes())
+	vrt_ConnPushRead(cs[1-firstB].conn, (&vFrame{id: 0x0002, phone: phone, serial: 2}).bytes())
+	vrt_Quiesce()
+	winner := -1
+	for id := 0; id < 2; id++ {
+		joins, refused, leaves := 0, 0, 0
+		leaveKey := "?"
+		for _, e := range log.evs {
+			if e.conn != id {
+				continue
+			}
+			switch e.kind {
+			case 0:
+				joins++
+			case 1:
+				refused++
+			case 2:
+				leaves++
+				leaveKey = e.key
+			}
+		}
+		vrt_Assert(joins+refused == 1, "each connection must be announced exactly once to the join callback")
+		if joins == 1 {
+			vrt_Assert(winner == -1, "two connections joined the same key at the same time")
+			vrt_Assert(leaves == 0, "the connection that owns the key was ended")
+			winner = id
+		} else {
+			vrt_Assert(leaves == 1 && leaveKey == "", "the refused connection must end, leaving with the empty key")
+		}
+	}
+	vrt_Assert(winner != -1, "neither connection obtained the free key")
+	var res *Message
+	vrt_Go(func() { res = sm.write(NewActiveMessage(key, 0x8104, []byte{1}, time.Second)) })
+	vrt_Quiesce()
+	ww := len(c06Frames(vrt_ConnWritten(cs[winner].conn)))
+	wl := len(c06Frames(vrt_ConnWritten(cs[1-winner].conn)))
+	vrt_Assert(ww == 2 && wl == 0, "command not written to the one connection that owns the key (after its heartbeat reply)")
+	vrt_ConnEOF(cs[winner].conn)
+	vrt_Quiesce()
+	vrt_Assert(res != nil && res.ExtensionFields.Err != nil, "the caller of the outstanding command was not answered when the connection ended")
+	var late *Message
+	vrt_Go(func() { late = sm.write(NewActiveMessage(key, 0x8104, []byte{2}, time.Second)) })
+	vrt_Quiesce()
+	vrt_Assert(late != nil && late.ExtensionFields.Err != nil && errors.Is(late.ExtensionFields.Err, ErrNotExistKey), "key not freed when the connection that owned it ended")
+	vrt_Cover("first-connection-won", winner == 0)
+	vrt_Cover("second-connection-won", winner == 1)
 }
